@@ -256,6 +256,11 @@ class Validator:
                     pd = child["__position__"]
             else:
                 pd = d["__position__"][key]
+                if isinstance(pd, list):
+                    # a repeated keyword (PROCESSING, FORMATOPTION ...) has one position
+                    # for each occurrence - report the occurrence the error is on
+                    idx = path[-1] if isinstance(path[-1], int) else 0
+                    pd = pd[idx] if idx < len(pd) else pd[0]
 
             error_dict["line"] = pd.get("line")
             error_dict["column"] = pd.get("column")
